@@ -129,6 +129,9 @@ Definition holds (c : case) : bool :=
       (match read_document whole with Some got => leqb adef_eqb got doc | None => false end)
       (* per definition: only for documents that are accepted (by the real checker, or closed by the
          specification's own rules when the checker was not run) *)
+      (* what the property needs from the real checker (enforced since /repo c67e45e): an accepted document
+         has no spread of an undefined fragment anywhere, also not in a fragment no operation spreads *)
+      && (if accepted then spreads_defined_b (od_defs d) else true)
       && (if accepted || closed_doc doc
           then outcome_ok doc js && (match ts with Some t => outcome_ok doc t | None => true end)
           else true)
